@@ -1290,7 +1290,11 @@ func (txn *KVTxn) cleanupAggressiveLockingRedundantLocks(ctx context.Context) {
 	}
 }
 
-func (txn *KVTxn) filterAggressiveLockedKeys(lockCtx *tikv.LockCtx, allKeys [][]byte) ([][]byte, error) {
+// Besides the keys that still need to be locked, it returns the entries it removed from lastRetryUnnecessaryLocks for keys
+// that are going to be locked again. The locks acquired for them in the previous attempt stay in TiKV until the new
+// request replaces them, so the caller must put these entries back if the request ends without either recording the key
+// in currentLockedKeys or rolling it back.
+func (txn *KVTxn) filterAggressiveLockedKeys(lockCtx *tikv.LockCtx, allKeys [][]byte) ([][]byte, map[string]tempLockBufferEntry, error) {
 	// In aggressive locking mode, we can skip locking if all of these conditions are met:
 	// * The primary is unchanged during the current aggressive locking (which means primary is already set
 	//   before the current aggressive locking or the selected primary is the same as that selected during the
@@ -1305,14 +1309,17 @@ func (txn *KVTxn) filterAggressiveLockedKeys(lockCtx *tikv.LockCtx, allKeys [][]
 
 	// Do not preallocate since in most cases the keys need to lock doesn't change during pessimistic-retry.
 	keys := make([][]byte, 0)
+	var relockedEntries map[string]tempLockBufferEntry
 	for _, k := range allKeys {
 		keyStr := string(k)
 		if lastResult, ok := txn.aggressiveLockingContext.lastRetryUnnecessaryLocks[keyStr]; ok {
 			if lockCtx.ForUpdateTS < lastResult.Value.LockedWithConflictTS {
 				// This should be an unreachable path.
-				return nil, errors.Errorf("Txn %v Retrying aggressive locking with ForUpdateTS (%v) less than previous LockedWithConflictTS (%v)", txn.StartTS(), lockCtx.ForUpdateTS, lastResult.Value.LockedWithConflictTS)
+				return nil, nil, errors.Errorf("Txn %v Retrying aggressive locking with ForUpdateTS (%v) less than previous LockedWithConflictTS (%v)", txn.StartTS(), lockCtx.ForUpdateTS, lastResult.Value.LockedWithConflictTS)
 			}
 			delete(txn.aggressiveLockingContext.lastRetryUnnecessaryLocks, keyStr)
+			// trySkipLockingOnRetry may change lastResult; keep the entry as it was recorded.
+			previousEntry := lastResult
 			if canTrySkip &&
 				lastResult.trySkipLockingOnRetry(lockCtx.ReturnValues, lockCtx.CheckExistence) &&
 				!txn.mayAggressiveLockingLastLockedKeysExpire() {
@@ -1324,11 +1331,15 @@ func (txn *KVTxn) filterAggressiveLockedKeys(lockCtx *tikv.LockCtx, allKeys [][]
 				txn.aggressiveLockingContext.currentLockedKeys[keyStr] = lastResult
 				continue
 			}
+			if relockedEntries == nil {
+				relockedEntries = make(map[string]tempLockBufferEntry)
+			}
+			relockedEntries[keyStr] = previousEntry
 		}
 		keys = append(keys, k)
 	}
 
-	return keys, nil
+	return keys, relockedEntries, nil
 }
 
 // collectAggressiveLockingStats collects statistics about aggressive locking and updates metrics if needed.
@@ -1532,6 +1543,8 @@ func (txn *KVTxn) lockKeys(ctx context.Context, lockCtx *tikv.LockCtx, fn func()
 	keys = deduplicateKeys(keys)
 	checkedExistence := false
 	filteredAggressiveLockedKeysCount := 0
+	// Entries removed from lastRetryUnnecessaryLocks for keys that are locked again in this call.
+	var relockedEntries map[string]tempLockBufferEntry
 	var assignedPrimaryKey bool
 	lockWakeUpMode := kvrpcpb.PessimisticLockWakeUpMode_WakeUpModeNormal
 	if txn.IsPessimistic() && lockCtx.ForUpdateTS > 0 {
@@ -1569,7 +1582,7 @@ func (txn *KVTxn) lockKeys(ctx context.Context, lockCtx *tikv.LockCtx, fn func()
 		// If aggressive locking is enabled, and we don't need to update the primary for all locks, we can avoid sending
 		// RPC to those already locked keys.
 		if txn.IsInAggressiveLockingMode() {
-			keys, err = txn.filterAggressiveLockedKeys(lockCtx, allKeys)
+			keys, relockedEntries, err = txn.filterAggressiveLockedKeys(lockCtx, allKeys)
 			if err != nil {
 				return err
 			}
@@ -1661,6 +1674,13 @@ func (txn *KVTxn) lockKeys(ctx context.Context, lockCtx *tikv.LockCtx, fn func()
 						}
 					}
 				}
+			} else {
+				// The failed request locked nothing and nothing is rolled back, but the locks acquired in the previous
+				// attempt of aggressive locking are still there. Keep them as unnecessary locks of the last attempt so
+				// that they will be released.
+				for keyStr, entry := range relockedEntries {
+					txn.aggressiveLockingContext.lastRetryUnnecessaryLocks[keyStr] = entry
+				}
 			}
 			if assignedPrimaryKey {
 				// unset the primary key and stop heartbeat if we assigned primary key when failed to lock it.
@@ -1699,6 +1719,11 @@ func (txn *KVTxn) lockKeys(ctx context.Context, lockCtx *tikv.LockCtx, fn func()
 		// note that lock_only_if_exists guarantees the response tells us whether the value exists
 		if lockCtx.LockOnlyIfExists && !valExists {
 			skippedLockKeys++
+			if entry, ok := relockedEntries[keyStr]; ok {
+				// The key is not locked by this request, but the lock acquired in the previous attempt of aggressive
+				// locking is still there. Keep it as an unnecessary lock of the last attempt so that it will be released.
+				txn.aggressiveLockingContext.lastRetryUnnecessaryLocks[keyStr] = entry
+			}
 			continue
 		}
 
